@@ -131,7 +131,7 @@ int main(int argc, char **argv) {
 		run(&c); return vh_finish();
 	}
 	if (vh_shard == 0 && P08) excl();
-	int maxn = vh_thorough ? 5 : 4;
+	int maxn = vh_thorough ? 6 : 4;
 	uint64_t idx = 0;
 	for (int n = 0; n <= maxn; n++) {
 		uint64_t total = 1; for (int i = 0; i < n; i++) total *= 8;
@@ -141,7 +141,7 @@ int main(int argc, char **argv) {
 			uint64_t y = x; c.n = n; for (int i = 0; i < n; i++) { c.key[i] = y % 8; y /= 8; }
 			for (unsigned bm = 0; bm < (1u << n); bm++) {
 				for (int i = 0; i < n; i++) c.big[i] = bm >> i & 1;
-				for (int cf = 0; cf < (vh_thorough ? 3 : 2); cf++) {
+				for (int cf = 0; cf < (vh_thorough ? (n >= 6 ? 1 : 3) : 2); cf++) {
 					c.comp = cf == 2 ? 3 : 0; c.restart = cf == 1 ? 1 : 16;
 					c.pool = 0; run(&c);
 					if (cf == 0) { c.pool = 1; run(&c); c.pool = 0; }
